@@ -295,3 +295,13 @@ Theorem C06_popon_times_inline_text : forall d off ws evs up eol,
   = rmap (fun spans => flat_map bspans (combine (ploads_of (wexpand ws)) spans)) (expected_with join_threshold evs).
 Proof. exact popon_times_inline_text. Qed.
 Print Assumptions C06_popon_times_inline_text.
+
+(* ---- wave 8: timing for writer lines with MIXED doubling (special / extended characters single among doubled codes) ---- *)
+From PV Require Import spec.SpecSccMixed proofs.SccMixedDoublingFacts.
+Theorem C06_popon_times_mixed : forall d off ms evs,
+  Forall (mseg_ok d off) ms -> forallb pseg_ok8 (mexpand ms) = true ->
+  res_map (pseg_event d off) (mexpand ms) = Ok evs -> positive evs ->
+  spans_of (read off (map (mseg_line d) ms))
+  = rmap (fun spans => flat_map bspans (combine (ploads_of (mexpand ms)) spans)) (expected_with join_threshold evs).
+Proof. exact popon_times_mixed. Qed.
+Print Assumptions C06_popon_times_mixed.
